@@ -40,7 +40,8 @@ ASSUMPTIONS = [
 EDGE_KINDS = ["arc", "origin", "angle", "spline", "polyLine", "project", "oncurve-circle", "oncurve-line", "oncurve-interp"]
 OP_KINDS = ["box", "extrude", "revolve", "wedge"]
 SKETCHES = ["grid", "onecore", "fourcore", "halfdisk", "wrapped", "oval", "annulus", "splinedisk", "halfsplinedisk", "quartersplinedisk", "splinering"]
-SHAPES = ["cylinder", "semicylinder", "frustum", "frustum-mid", "elbow", "extrudedring", "revolvedring", "hemisphere"]
+SHAPES = ["cylinder", "semicylinder", "frustum", "frustum-mid", "elbow", "extrudedring", "revolvedring", "hemisphere",
+          "revolvedshape", "revolvedshape-grid"]
 STACKS = ["extrudedstack", "revolvedstack", "transformedstack"]
 JOINTS = ["ljoint", "tjoint", "njoint"]
 CURVES = ["discrete", "linear", "spline-interp", "linecurve", "circlecurve"]
@@ -177,6 +178,14 @@ def make_entity(e, cb):
             return cb.RevolvedRing(list(o), list(o + fr[2] * 2), face, n_segments=rng.choice([4, 6])), None
         if k == "hemisphere":
             return cb.Hemisphere(list(o), list(rp), list(fr[2])), None
+        if k in ("revolvedshape", "revolvedshape-grid"):
+            # a sketch in the plane (fr0, fr1) revolved about an axis parallel to fr0 lying on its -fr1 side
+            sk = make_sketch("grid" if k.endswith("grid") else rng.choice(["onecore", "fourcore", "oval"]), rng, o, fr, cb)
+            if k.endswith("grid"):
+                sk = cb.Grid([0, 0, 0], [2, 1.5, 0], rng.randint(1, 2), rng.randint(1, 2))
+                sk.rotate(rng.uniform(0, 3), [0, 0, 1], [0, 0, 0])
+                return cb.RevolvedShape(sk, rng.uniform(0.3, 1.0), [1.0, 0.2, 0.0], [0.0, -6.0, 0.0]), None
+            return cb.RevolvedShape(sk, rng.uniform(0.3, 1.0), list(fr[0] * 1.5), list(o - fr[1] * rng.uniform(4, 6))), None
     if g == "stack":
         k = e["kind"]
         base = cb.Grid(list(o), list(o + np.array([2.0, 1.5, 0.0])), rng.randint(1, 3), rng.randint(1, 2))
